@@ -113,6 +113,9 @@ pub fn cases(tier: Tier) -> CaseSet {
     for (d, spec) in crate::c06::nested_tag_family().into_iter().step_by(tier.pick(11, 3)) {
         models.push((d, spec));
     }
+    for (d, spec) in crate::c01::cache_table_family() {
+        models.push((d, spec));
+    }
     for (d, spec) in crate::c01::leading_zero_family() {
         models.push((d, spec));
     }
